@@ -453,9 +453,14 @@ package mask
 // (Do / traverseTree / processMask require it) and the per-mask counters exist, one per
 // mask, whenever some mask has a metric of its own.
 
+// (The two scratch buffers are separate blocks: maskValue appends to one while it reads the
+// value from the other - if the capacity of the first ran into the second, a replacement
+// longer than the secret would overwrite the unread tail of the value.)
+
 //@ func (*Plugin).Start
 //@   option allow-exit yes
 //@   requires typeis(config, "*github.com/ozontech/file.d/plugin/action/mask.Config") && params != nil && params.PipelineSettings != nil && params.PipelineSettings.AvgEventSize >= 0
+//@   ensures !sameblock(p.maskBuf, p.sourceBuf) && len(p.maskBuf) == 0 && len(p.sourceBuf) == 0
 //@   ghost ncm int = 0
 //@   ghost gcref int = 0
 //@   ghost gcoff int = 0
